@@ -203,3 +203,28 @@ pub proof fn lemma_set_port(a: Seq<u8>, np: Option<Seq<u8>>)
     assert(a.subrange(0, he) =~= opt_prefix(au_ui(a), 64) + au_host(a));
 }
 } // verus!
+verus! {
+/// a splice inside a window [lo, hi) of a buffer: the prefix before the window and the suffix after
+/// it are untouched, and the new window content is the old one with the range replaced
+pub proof fn lemma_window_splice(o: Seq<u8>, lo: int, a: int, b: int, hi: int, c: Seq<u8>, n: Seq<u8>)
+    requires 0 <= lo <= a <= b <= hi <= o.len(), n == splice(o, a, b, c),
+    ensures ({
+        let hi2 = hi - (b - a) + c.len();
+        &&& n.len() == o.len() - (b - a) + c.len()
+        &&& n.subrange(0, lo) =~= o.subrange(0, lo)
+        &&& n.subrange(hi2, n.len() as int) =~= o.subrange(hi, o.len() as int)
+        &&& n.subrange(lo, hi2) =~= o.subrange(lo, a) + c + o.subrange(b, hi)
+    }),
+{
+}
+
+/// a buffer described element-wise as "prefix kept, c inserted at a, rest shifted" is that splice
+pub proof fn lemma_is_splice(o: Seq<u8>, a: int, b: int, c: Seq<u8>, n: Seq<u8>)
+    requires 0 <= a <= b <= o.len(), n.len() == o.len() - (b - a) + c.len(),
+        forall|k: int| 0 <= k < a ==> n[k] == o[k],
+        forall|k: int| a <= k < a + c.len() ==> n[k] == c[k - a],
+        forall|k: int| a + c.len() <= k < n.len() ==> n[k] == o[k - c.len() + (b - a)],
+    ensures n =~= splice(o, a, b, c),
+{
+}
+} // verus!
